@@ -27,10 +27,10 @@ LEVEL_TEXT = ('for window_score and template_input, every configuration (initial
               'with an exception injected at exactly the k-th call made from the module under test (Python and C calls, environment look-ups included); os.environ is compared as a whole before/after every run')
 LEVEL_NOTE = ('one injected fault per run (bound = 1 deviation) at call granularity; heavy collaborators (readspec, solvers, plotting, scoring) are replaced by light stubs so the fault-free run completes, '
               'the functions under test run unmodified; writes to os.environ themselves are assumed not to fail; trusted: sys.setprofile event delivery')
-RULE = ('two-call histories on one parameter file (first call succeeds or fails naturally, environment changed in between, second call swept with every fault point); configurations = full product of initial environment states x variants; per configuration k = 0 (no fault), natural failures, and k = 1..N for every call event whose caller frame '
+RULE = ('two-call histories on one parameter file (first call succeeds or fails naturally, environment changed in between, second call swept with every fault point; with and without the dump file the first call wrote being what the second call loads); natural failures include a parameter file whose run2d/run1d value cannot be put in the environment (NUL byte: the assignment itself raises between the first and the second variable); configurations = full product of initial environment states x variants; per configuration k = 0 (no fault), natural failures, and k = 1..N for every call event whose caller frame '
         'belongs to the module under test. Non-trivial: a run that ends by an exception while the environment at the moment of the fault differs from the initial one (something had to be restored). '
         'Distinct: (entry point, configuration, k, exception class).')
-ASSUMPTIONS = ['assignments/deletions on os.environ are not themselves fault points (if restoring cannot be done, nothing can restore); look-ups in os.environ are not fault points either (their answer is determined by the enumerated initial state); pure str/list/dict methods and len/isinstance/... are not fault points; calls between functions of the module under test are not fault points themselves (their outgoing calls are)',
+ASSUMPTIONS = ['assignments/deletions on os.environ are not injected fault points (if restoring cannot be done, nothing can restore); the data-driven failure of the initial assignment (NUL byte in the value) is enumerated as a natural failure instead; look-ups in os.environ are not fault points either (their answer is determined by the enumerated initial state); pure str/list/dict methods and len/isinstance/... are not fault points; calls between functions of the module under test are not fault points themselves (their outgoing calls are)',
                'collaborators are stubs; faults inside a collaborator after a partial side effect of its own are outside the bound',
                'exception classes injected: a RuntimeError subclass and KeyboardInterrupt (quick) plus KeyError, OSError, ValueError, SystemExit (thorough)']
 MIN_OUTCOMES = 3
@@ -190,7 +190,10 @@ class _Fake:
 
 def ti_write_par(path, cfg):
     obj, method = cfg['object'], cfg['method']
-    lines = ['object %s' % obj, 'method %s' % method, 'aesthetics mean', 'run2d new2d', 'run1d new1d',
+    # nul2d / nul1d: a parameter file whose run2d / run1d value carries a NUL byte - the one realistic way the environment
+    # assignment itself fails (ValueError: embedded null byte), i.e. a failure between the first and the second variable
+    lines = ['object %s' % obj, 'method %s' % method, 'aesthetics mean', 'run2d new%s2d' % ('\x00' if cfg['defect'] == 'nul2d' else ''),
+             'run1d new%s1d' % ('\x00' if cfg['defect'] == 'nul1d' else ''),
              'wavemin 3600.', 'wavemax 3700.', 'snmax 100', 'niter %s' % ('abc' if cfg['defect'] == 'badvalue' else '2'),
              'nkeep %d' % NKEEP, 'minuse 3']
     if cfg['defect'] == 'missingkey':
@@ -222,6 +225,7 @@ def ti_setup(d, cfg, keep_files=False):
     loglam = np.log10(3600.) + 1e-4 * np.arange(NPIX)
     flux = np.ones((NSPEC, NPIX)) + 0.01 * np.arange(NPIX)[None, :]
     ivar = np.ones((NSPEC, NPIX))
+    # dump == 'kept': whatever the first call of a two-call history left behind (its own dump file) is what the second call finds
     if keep_files and cfg['dump'] == 'absent' and os.path.exists(dump):
         os.remove(dump)
     if cfg['dump'] == 'present' and not os.path.exists(dump):
@@ -312,7 +316,7 @@ def ti_configs(tier):
         if not T and run2d != run1d:
             continue        # quick: natural failures from the both-set and both-unset states
         # natural failures (0 injected faults, but also swept with injected ones)
-        for defect in ('missingfile', 'missingkey', 'badvalue', 'missinghmf', 'noeigenobj'):
+        for defect in ('missingfile', 'missingkey', 'badvalue', 'missinghmf', 'noeigenobj', 'nul2d', 'nul1d'):
             out.append({'ep': 'template_input', 'run2d': run2d, 'run1d': run1d, 'object': 'gal',
                         'method': 'hmf' if defect == 'missinghmf' else 'pca', 'dump': 'absent', 'flux': False, 'defect': defect})
         out.append({'ep': 'template_input', 'run2d': run2d, 'run1d': run1d, 'object': 'gal', 'method': 'bogus', 'dump': 'absent',
@@ -338,6 +342,11 @@ def ti_configs(tier):
             for nat in ((None, 'readspec', 'solver') if T else (None, 'readspec')):
                 out.append({'ep': 'template_input', 'run2d': b[0], 'run1d': b[1], 'object': 'gal', 'method': 'pca', 'dump': 'absent',
                             'flux': False, 'defect': 'none', 'first': {'run2d': a[0], 'run1d': a[1], 'natural': nat}})
+            # the second call finds the dump file the first call wrote (first call succeeds, or fails after writing it)
+            for nat in ((None, 'solver', 'plot') if T else (None, 'solver')):
+                for method in (('pca', 'hmf') if T else ('pca',)):
+                    out.append({'ep': 'template_input', 'run2d': b[0], 'run1d': b[1], 'object': 'gal', 'method': method, 'dump': 'kept',
+                                'flux': False, 'defect': 'none', 'first': {'run2d': a[0], 'run1d': a[1], 'natural': nat}})
     return out
 
 
